@@ -144,6 +144,14 @@ pub enum MRdata {
         a: MName,
         b: MName,
     },
+    /// SVCB (64) / HTTPS (65), RFC 9460 §2.2: priority, uncompressed target name, optionally the
+    /// `port` parameter. The types are not in the RFC 4034 §6.2 list: the target keeps its case
+    Svc {
+        code: u16,
+        prio: u16,
+        target: MName,
+        port: Option<u16>,
+    },
     /// RFC 3597 opaque RDATA of a type with no special canonical rule; never empty
     Opaque {
         code: u16,
@@ -221,6 +229,7 @@ impl MRdata {
             MRdata::NameOnly { code, .. }
             | MRdata::PrefName { code, .. }
             | MRdata::TwoNames { code, .. }
+            | MRdata::Svc { code, .. }
             | MRdata::Opaque { code, .. } => *code,
         }
     }
@@ -248,6 +257,7 @@ impl MRdata {
             MRdata::NameOnly { .. } => "rfc4034-listed-name-only(unknown-to-hickory)",
             MRdata::PrefName { .. } => "rfc4034-listed-pref+name(unknown-to-hickory)",
             MRdata::TwoNames { .. } => "rfc4034-listed-two-names(unknown-to-hickory)",
+            MRdata::Svc { .. } => "SVCB/HTTPS",
             MRdata::Opaque { .. } => "opaque",
         }
     }
@@ -263,6 +273,8 @@ impl MRdata {
             MRdata::Naptr { replacement, .. } => vec![(replacement, true)],
             // RFC 6840 §5.1: the NSEC next name is NOT down-cased
             MRdata::Nsec { next, .. } => vec![(next, false)],
+            // not in the RFC 4034 §6.2 list
+            MRdata::Svc { target, .. } => vec![(target, false)],
             MRdata::NameOnly { name, .. } | MRdata::PrefName { name, .. } => vec![(name, true)],
             MRdata::TwoNames { a, b, .. } => vec![(a, true), (b, true)],
             _ => vec![],
@@ -393,6 +405,14 @@ impl MRdata {
                 put_name(&mut o, &a.labels, lc);
                 put_name(&mut o, &b.labels, lc);
             }
+            MRdata::Svc { prio, target, port, .. } => {
+                o.extend_from_slice(&prio.to_be_bytes());
+                put_name(&mut o, &target.labels, false);
+                if let Some(p) = port {
+                    o.extend_from_slice(&[0, 3, 0, 2]);
+                    o.extend_from_slice(&p.to_be_bytes());
+                }
+            }
             MRdata::Opaque { data, .. } => o.extend_from_slice(data),
         }
         o
@@ -429,6 +449,7 @@ impl MRdata {
             MRdata::NameOnly { code, name } => format!("TYPE{code} {}", n(name)),
             MRdata::PrefName { code, pref, name } => format!("TYPE{code} {pref} {}", n(name)),
             MRdata::TwoNames { code, a, b } => format!("TYPE{code} {} {}", n(a), n(b)),
+            MRdata::Svc { code, prio, target, port } => format!("TYPE{code} {prio} {} port={port:?}", n(target)),
             other => format!("{} \\# {}", other.kind(), crate::core::hexser::to_hex(&other.raw())),
         }
     }
